@@ -83,8 +83,19 @@ func (r *RingBufferRateLimiter) loop() {
 		default:
 		}
 
-		if len(r.ring) == 0 {
-			if r.window == 0 {
+		// read the configuration and the oldest timestamp in one critical
+		// section: SetMaxEvents and SetWindow may run at any time, and the
+		// ring must not be indexed after it has been emptied
+		r.mu.Lock()
+		maxEvents, window := len(r.ring), r.window
+		var then time.Time
+		if maxEvents > 0 {
+			then = r.ring[r.cursor].Add(window)
+		}
+		r.mu.Unlock()
+
+		if maxEvents == 0 {
+			if window == 0 {
 				// rate limiting is disabled; always allow immediately
 				r.permit()
 				continue
@@ -93,9 +104,6 @@ func (r *RingBufferRateLimiter) loop() {
 		}
 
 		// wait until next slot is available or until we've been stopped
-		r.mu.Lock()
-		then := r.ring[r.cursor].Add(r.window)
-		r.mu.Unlock()
 		waitDuration := time.Until(then)
 		waitTimer := time.NewTimer(waitDuration)
 		select {
